@@ -137,6 +137,14 @@ def r71(ctx, fx, et):
         if n.get("k") in ("letx", "let") and "init" in n and any(x.get("k") == "mcall" and str(x.get("name", "")).startswith("evaluate_expression")
                                                               for x in lib.hwalk(n["init"])):
             cond_vals |= {q["name"] for q in lib.hwalk(n["pat"]) if q.get("k") == "bind"}
+    # … also where the value is looked at inside a closure handed to a method of the Option (`value.map_or(false, |v| v != 0)`)
+    for n in lib.hwalk(arm["body"]):
+        if n.get("k") == "mcall" and lib.hpath(lib.strip(n["recv"])) in cond_vals:
+            for a in n.get("args") or []:
+                a = lib.strip(a)
+                if a.get("k") == "closure":
+                    for prm in a.get("params", []):
+                        cond_vals |= {q["name"] for q in lib.hwalk(prm) if q.get("k") == "bind"}
     key = "%s|If|truth-is-nonzero" % et.path
     cmps = [n for n in lib.hwalk(arm["body"]) if n.get("k") == "binary" and n.get("op") in ("Lt", "Le", "Gt", "Ge", "Eq", "Ne") and
             any(lib.hpath(lib.strip(n[side])) in cond_vals for side in ("l", "r"))]
